@@ -382,4 +382,47 @@ func runC12(c *fw.Ctx) {
 		}
 	}
 	_ = fmt.Sprint
+	// ---- shapes that collide under ad-hoc cache keys, evaluated one after the other in ONE process (and on one loss object in half
+	// the cases): batch / class counts whose digits run together ([11,2] and [1,12]), equal element counts, transposed pairs ----
+	groups := [][][]int{{{11, 2}, {1, 12}}, {{1, 12}, {11, 2}}, {{12, 3}, {1, 23}}, {{2, 11}, {21, 1}}, {{1, 11}, {11, 1}}, {{3, 4}, {4, 3}, {2, 6}, {6, 2}, {12, 1}, {1, 12}},
+		{{10, 1}, {1, 1}, {1, 10}, {1, 101}, {10, 11}, {101, 1}}, {{2, 5}, {25, 1}, {5, 2}, {1, 25}}}
+	for gi, group := range groups {
+		for _, kind := range []string{"ce", "bce", "mse"} {
+			for rep := 0; rep < 2; rep++ {
+				gi, group, kind, rep := gi, group, kind, rep
+				c.Case(func(k *fw.K) {
+					k.Key("colliding-batch-shapes/%s/%d/%d", kind, gi, rep)
+					k.Count("colliding_batch_shape_groups", 1)
+					obj := lossObj(kind)
+					for _, sh := range group {
+						shape := sh
+						if kind != "ce" {
+							shape = []int{sh[0] * sh[1]}
+						}
+						p, t := RandT(k.Rng, shape, 0.05, 0.95), RandT(k.Rng, shape, 0, 1)
+						want, err := ref.Loss(kind, p, t)
+						if err != nil {
+							k.Failf("harness: %v", err)
+							return
+						}
+						if rep == 1 {
+							obj = lossObj(kind)
+						}
+						k.Case = lossCase{Loss: kind, Pred: p, Target: t}
+						var l tensor.Tensor
+						if pn := call(func() { l, err = obj.Compute(rt.MustLeaf(p, k.Rng.Intn(2) == 0), rt.MustLeaf(t, false)) }); pn != nil || err != nil || l == nil {
+							k.Failf("%s.Compute on shape %v, after the shapes %v in the same process: panic=%v err=%v", kind, shape, group, pn, err)
+							return
+						}
+						lv, err := l.At()
+						if err != nil || !ref.Close(lv, want.Data[0], lossTol(kind, p, t), 1e-12) {
+							k.Failf("%s.Compute on shape %v, after other shapes of the group %v = %v, the defined value is %v (%v)", kind, shape, group, lv, want.Data[0], err)
+							return
+						}
+						k.Count("loss_evaluations", 1)
+					}
+				})
+			}
+		}
+	}
 }
